@@ -527,7 +527,9 @@ pub fn replay_net(ctx: &NetCtx, c: &Value, rep: &mut Report) {
             // enabled tags are set on it before loading (and must survive the load)
             let loaded = guarded(|| {
                 let bytes = eng.serialize_raw().expect("serialize");
-                let mut e2 = Engine::new(opt);
+                // the receiving engine is configured the OTHER way (optimisation flag): nothing of the receiver but its
+                // enabled tags may show in the loaded engine
+                let mut e2 = Engine::new(!opt);
                 let t: Vec<&str> = tags.iter().map(|s| s.as_str()).collect();
                 e2.use_tags(&t);
                 e2.deserialize(&bytes).expect("deserialize of own image");
@@ -592,6 +594,7 @@ pub fn replay_net(ctx: &NetCtx, c: &Value, rep: &mut Report) {
         }
         engines.insert(0, ("", eng));
         let mut first: Vec<Option<(Value, Value)>> = vec![];
+        let mut first_texts: Vec<Vec<String>> = vec![];
         for (label, eng) in engines.iter() {
             for (qi, q) in ctx.reqs.iter().enumerate() {
                 let req = match Request::new(&q.url, &q.src, &q.alias) {
@@ -689,6 +692,14 @@ pub fn replay_net(ctx: &NetCtx, c: &Value, rep: &mut Report) {
                                 "req": {"url": q.url, "src": q.src, "type": q.alias}, "observed": o, "allowed": allowed, "devs": []}));
                         }
                     }
+                }
+                if label.is_empty() {
+                    first_texts.resize(qi + 1, vec![]);
+                    first_texts[qi] = texts.clone();
+                } else if *label == "after-reload" && first_texts.get(qi).map_or(false, |t| *t != texts) {
+                    // C08 literally, debug rules: the rule texts reported with the verdict are part of the result
+                    rep.mismatch(json!({"what": "reload-differs-rule-text", "rules": rules, "tags": tags, "opt": opt,
+                        "req": {"url": q.url, "src": q.src, "type": q.alias}, "observed": texts, "allowed": [first_texts[qi].clone()], "devs": []}));
                 }
                 if label.is_empty() {
                     first.push(Some(obs));
